@@ -48,6 +48,15 @@ def desugar(loc, relfile, fn_paths, rules):
                     rewrites.append((v["call"][0], v["call"][1], new))
                     records.append({"fn": fp, "rule": "D7 RECV.map_err(|_| { S; E })  =>  match RECV { Ok(v) => Ok(v), Err(_) => { S; Err(E) } }",
                                     "original": src[v["call"][0]:v["call"][1]], "rewritten": new})
+                elif v["rule"] == "D3":
+                    recv = src[v["recv"][0]:v["recv"][1]]
+                    pat = src[v["pat"][0]:v["pat"][1]]
+                    body = src[v["body"][0]:v["body"][1]]
+                    new = ("{ let mut pv_collected = Vec::new(); for " + pat + " in " + recv + " { if " + body
+                           + " { pv_collected.push(*" + pat + "); } } pv_collected }")
+                    rewrites.append((v["call"][0], v["call"][1], new))
+                    records.append({"fn": fp, "rule": "D3 X.iter().filter(|p| C).copied().collect::<Vec<_>>()  =>  { let mut out = Vec::new(); for p in X.iter() { if C { out.push(*p); } } out }",
+                                    "original": src[v["call"][0]:v["call"][1]], "rewritten": new})
                 elif v["rule"] == "D8":
                     name = src[v["name"][0]:v["name"][1]]
                     new = "std::cmp::" + name
